@@ -167,6 +167,17 @@ fn a1_records(job: &A1Job, thr: u8, rule: u8, hint: bool, seen: &Arc<Mutex<Vec<S
                         fail(format!("{} tracing event(s) for a {} record with target {:?} (max level passes: {}, ignored: {}, collector accepts level+target: {}); expected {}", got.len(), lvl, t, passes_max, ignored, accepts, usize::from(expect)));
                         continue;
                     }
+                    // the other public entry point: format_trace (used by custom loggers) consults
+                    // only the collector
+                    if li == 0 {
+                        seen.lock().unwrap().clear();
+                        let _ = tracing_log::format_trace(&log::Record::builder().metadata(meta.clone()).args(format_args!("{}", msg)).file(*file).line(*line).module_path(*module).build());
+                        let n = seen.lock().unwrap().len();
+                        res.records += 1;
+                        if n != usize::from(accepts) {
+                            fail(format!("format_trace produced {} event(s) for a {} record with target {:?}; the collector {} its level and target", n, lvl, t, if accepts { "accepts" } else { "rejects" }));
+                        }
+                    }
                     if let Some(e) = got.first() {
                         res.delivered += 1;
                         let want = Seen {
@@ -334,10 +345,10 @@ impl tracing_core::Collect for Plain {
 /// (level, target, fragments the text must contain)
 type Want = (&'static str, &'static str, Vec<&'static str>);
 
-const STEPS: usize = 16;
+const STEPS: usize = 17;
 
 fn step_name(i: usize) -> &'static str {
-    ["info! message+fields", "span a (fields)", "enter a", "warn! fields only", "record on a", "exit a", "span b (no fields, target)", "enter b", "error! target", "exit b", "drop b", "drop a", "trace! message", "debug_span c + in_scope", "event!(Level::DEBUG, ?dbg %disp)", "span d disabled then dropped"][i]
+    ["info! message+fields", "span a (fields)", "enter a", "warn! fields only", "record on a", "exit a", "span b (no fields, target)", "enter b", "error! target", "exit b", "drop b", "drop a", "trace! message", "debug_span c + in_scope", "event!(Level::DEBUG, ?dbg %disp)", "span d disabled then dropped", "span e entered() guard dropped"][i]
 }
 
 #[derive(Default)]
@@ -415,9 +426,15 @@ fn exec_step(i: usize, p: &mut Prog) -> Vec<Want> {
             tracing::event!(tracing::Level::DEBUG, dbg = ?v, disp = %"shown");
             vec![("DEBUG", HERE, vec!["dbg=[1, 2]", "disp=shown"])]
         }
-        _ => {
+        15 => {
             drop(tracing::span!(tracing::Level::ERROR, "span_d"));
             vec![("ERROR", "tracing::span", vec!["span_d"]), ("TRACE", "tracing::span", vec!["-- span_d"])]
+        }
+        _ => {
+            // the owning guard is dropped (not exit()ed): exit and close are both steps of the drop
+            let g = tracing::info_span!("span_e", q = 1).entered();
+            drop(g);
+            vec![("INFO", HERE, vec!["span_e", "q=1"]), ("TRACE", "tracing::span::active", vec!["-> span_e"]), ("TRACE", "tracing::span::active", vec!["<- span_e"]), ("TRACE", "tracing::span", vec!["-- span_e"])]
         }
     }
 }
